@@ -165,6 +165,8 @@ fn step(s: &dyn ShapeDyn, d: &Desc, img: &[u8], pop: &PathOp) -> StepResult {
         let (outs, obs) = match r {
             Err(p) => {
                 res.viol.push((own, format!("panic/{}/{}", name, panic_site(&p)), format!("panic: {}", p)));
+                // the call includes observing the post-state (accessors, size()): C05 holds in every reachable state
+                res.viol.push(("C05", format!("panic/{}/{}", name, panic_site(&p)), format!("panic during the call or while observing the result (size(), accessors): {}", p)));
                 res.outcome = "panic";
                 return;
             }
